@@ -98,13 +98,35 @@ def run_group(group, tier, seed=0, extra_args=()):
         cmd += ['--smt-option', 'smt.random_seed=%d' % seed]
     cmd += list(extra_args)
     res['cmd'] = ' '.join(cmd)
-    try:
-        p = subprocess.run(cmd, capture_output=True, text=True, timeout=VERUS_TIMEOUT, cwd=BUILD)
-    except subprocess.TimeoutExpired:
-        res['status'] = 'undecided'
-        res['undecided'] = 'verus timed out after %ds' % VERUS_TIMEOUT
-        res['wall_s'] = time.time() - t0
-        return res
+    injected = []
+    for _attempt in range(4):
+        try:
+            p = subprocess.run(cmd, capture_output=True, text=True, timeout=VERUS_TIMEOUT, cwd=BUILD)
+        except subprocess.TimeoutExpired:
+            res['status'] = 'undecided'
+            res['undecided'] = 'verus timed out after %ds' % VERUS_TIMEOUT
+            res['wall_s'] = time.time() - t0
+            return res
+        # std functions the unchanged tree does not call: inject their assumed spec on demand
+        missing = set(re.findall(r'`([A-Za-z0-9_:&%]+)` is not supported', p.stderr))
+        lib = ondemand_library()
+        add = [k for k in sorted(missing) if k in lib and k not in injected]
+        if not add:
+            break
+        text = ex['text']
+        idx = text.rfind('} // verus!')
+        if idx < 0:
+            break
+        block = ''.join('\n// on-demand T-std spec for `%s`\n%s\n' % (k, lib[k]) for k in injected + add)
+        with open(gen, 'w') as f:
+            f.write(text[:idx] + block + text[idx:])
+        injected += add
+    if injected:
+        res['log'] = res['log'] + [{'unit': 'std', 'rule': 'T-std on demand', 'what': 'assumed spec injected for %s' % k} for k in injected]
+        with open(gen) as f:
+            ex = dict(ex)
+            ex['text'] = f.read()
+        res['assumption_scan'] = scan_assumptions(ex['text'])
     out = None
     try:
         out = json.loads(p.stdout)
@@ -218,6 +240,30 @@ def run_group(group, tier, seed=0, extra_args=()):
             res['undecided'] = 'vacuity guard: these canaries verified although they must fail: %s' % det.get('vacuous')
     res['wall_s'] = time.time() - t0
     return res
+
+
+_ONDEMAND = None
+
+
+def ondemand_library():
+    """{verus function path: assume_specification text} from contracts/prelude/std_ondemand.rs"""
+    global _ONDEMAND
+    if _ONDEMAND is None:
+        _ONDEMAND = {}
+        p = os.path.join(VERIF, 'contracts', 'prelude', 'std_ondemand.rs')
+        if os.path.exists(p):
+            key, buf = None, []
+            for l in open(p).read().split('\n'):
+                m = re.match(r'^//@ondemand\s+(\S+)', l)
+                if m:
+                    if key:
+                        _ONDEMAND[key] = '\n'.join(buf)
+                    key, buf = m.group(1), []
+                elif key is not None:
+                    buf.append(l)
+            if key:
+                _ONDEMAND[key] = '\n'.join(buf)
+    return _ONDEMAND
 
 
 def run_canaries(group, ex, gen_path):
